@@ -59,7 +59,32 @@ structure Sess where
   r : Int := 0
   d : Int := 0
   lastList : List String := []    -- the most recently accepted endpoint list
+  downAt : List (String × Int) := []   -- when each endpoint's current recovery window began (creation, or the report that took it down)
   deriving Inhabited
+
+/-- history record of recovery windows: a window begins when an endpoint is created and when an
+    available endpoint is reported unavailable; a report of availability ends it -/
+def updDown (down : List (String × Int)) (pre post : St) (op : Op) (out : Out) : List (String × Int) :=
+  match op with
+  | .setAvail e false =>
+    match findEp pre.eps e with
+    | some x => if x.status == .available then (down.filter fun p => p.1 != e) ++ [(e, pre.now)] else down
+    | none => down
+  | .setAvail e true => down.filter fun p => p.1 != e
+  | .setEndpoints l =>
+    if out == Out.ok then
+      (down.filter fun p => l.contains p.1) ++
+        ((ids post.eps).filter fun id => !(ids pre.eps).contains id).map fun id => (id, pre.now)
+    else down
+  | _ => down
+
+/-- C14: the recovery window is not cut short: an endpoint whose window began at `t` is not unavailable
+    before `t + r` -/
+def windowRespected (down : List (String × Int)) (post : St) : Bool :=
+  post.eps.all fun e =>
+    match down.find? (fun p => p.1 == e.id) with
+    | some (_, t) => e.status != .unavailable || decide (t + post.r ≤ post.now)
+    | none => true
 
 /-- the history record behind "known to be available": an endpoint counts as available exactly when the
     last report for it, since it was (re)added to the list, said so -/
@@ -128,8 +153,10 @@ def handle (sess : Sess) (rep : Report) (ln : Nat) (toks : List String) (obs : S
       | some s =>
         let mine := s!"ok ; {digest s}"
         if mine == obs then
-          ({ model := some s, impl := parseDigest r d dig, monitored := r ≥ 0 && d ≥ 0, r := r, d := d, lastList := decList (arg a "eps") }, rep)
-        else ({ model := none, impl := parseDigest r d dig, monitored := r ≥ 0 && d ≥ 0, r := r, d := d, lastList := decList (arg a "eps") },
+          ({ model := some s, impl := parseDigest r d dig, monitored := r ≥ 0 && d ≥ 0, r := r, d := d, lastList := decList (arg a "eps"),
+             downAt := (decList (arg a "eps")).map fun id => (id, 0) }, rep)
+        else ({ model := none, impl := parseDigest r d dig, monitored := r ≥ 0 && d ≥ 0, r := r, d := d, lastList := decList (arg a "eps"),
+                downAt := (decList (arg a "eps")).map fun id => (id, 0) },
               { rep.msg s!"DIVERGE line={ln} model={mine} impl={obs}" with diverged := rep.diverged + 1 })
     | _, _ => (sess, rep.msg s!"BAD line={ln}")
   | _ =>
@@ -147,12 +174,19 @@ def handle (sess : Sess) (rep : Report) (ln : Nat) (toks : List String) (obs : S
           let rep := if sess.monitored && !statusMatchesReports reports post then
               { rep.msg s!"MONITOR property=C13 clause=status_matches_reports line={ln}" with monitorFails := rep.monitorFails + 1 }
             else rep
+          let rep := if sess.monitored && !windowRespected (updDown sess.downAt pre post op o) post then
+              { rep.msg s!"MONITOR property=C14 clause=window_not_cut_short line={ln}" with monitorFails := rep.monitorFails + 1 }
+            else rep
           let lastList := match op with | .setEndpoints l => if o == Out.ok then l else sess.lastList | _ => sess.lastList
           let rep := if sess.monitored && !listMatches lastList post then
               { rep.msg s!"MONITOR property=C13 clause=list_and_priorities line={ln}" with monitorFails := rep.monitorFails + 1 }
             else rep
           (interesting rep pre op post, reports)
         | _, _, _ => (rep.msg s!"UNPARSED line={ln} obs={obs}", sess.reports)
+      let downAt := match sess.impl, implPost, parseOut outS with
+        | some pre, some post, some o => updDown sess.downAt pre post op o
+        | _, _, _ => sess.downAt
+      let sess := { sess with downAt := downAt }
       match sess.model with
       | some s =>
         let (s', out) := step s op
